@@ -51,23 +51,23 @@ GROUPS = [
       enforce='oasis_write_gdelta', replace=['oasis_write_int_internal']),
     # reals
     G('real_read_int', roots=['gdstk::oasis_read_real_by_type'], entry='h_real_read',
-      defines={'VF_TAPE_MAX': 28, 'VF_WTAPE_MAX': 28, 'VF_TYPE_LO': 0, 'VF_TYPE_HI': 1},
+      bound='loops bounded by the operand width; tape window 24 bytes read from position 0 (the integers inside are read through oasis_read_unsigned_integer\'s contract, which is position-generic)', defines={'VF_TAPE_MAX': 24, 'VF_WTAPE_MAX': 24, 'VF_POS0_ZERO': 1, 'VF_TYPE_LO': 0, 'VF_TYPE_HI': 1},
       enforce='oasis_read_real_by_type', replace=['oasis_read_unsigned_integer', 'oasis_read', 'little_endian_swap32', 'little_endian_swap64'],
       replace_extern=['fputs']),
     G('real_read_recip', uf_fdiv=True, roots=['gdstk::oasis_read_real_by_type'], entry='h_real_read',
-      defines={'VF_TAPE_MAX': 28, 'VF_WTAPE_MAX': 28, 'VF_TYPE_LO': 2, 'VF_TYPE_HI': 3},
+      bound='loops bounded by the operand width; tape window 24 bytes read from position 0 (the integers inside are read through oasis_read_unsigned_integer\'s contract, which is position-generic)', defines={'VF_TAPE_MAX': 24, 'VF_WTAPE_MAX': 24, 'VF_POS0_ZERO': 1, 'VF_TYPE_LO': 2, 'VF_TYPE_HI': 3},
       enforce='oasis_read_real_by_type', replace=['oasis_read_unsigned_integer', 'oasis_read', 'little_endian_swap32', 'little_endian_swap64'],
       replace_extern=['fputs']),
     G('real_read_ratio', uf_fdiv=True, roots=['gdstk::oasis_read_real_by_type'], entry='h_real_read',
-      defines={'VF_TAPE_MAX': 28, 'VF_WTAPE_MAX': 28, 'VF_TYPE_LO': 4, 'VF_TYPE_HI': 5},
+      bound='loops bounded by the operand width; tape window 24 bytes read from position 0 (the integers inside are read through oasis_read_unsigned_integer\'s contract, which is position-generic)', defines={'VF_TAPE_MAX': 24, 'VF_WTAPE_MAX': 24, 'VF_POS0_ZERO': 1, 'VF_TYPE_LO': 4, 'VF_TYPE_HI': 5},
       enforce='oasis_read_real_by_type', replace=['oasis_read_unsigned_integer', 'oasis_read', 'little_endian_swap32', 'little_endian_swap64'],
       replace_extern=['fputs']),
     G('real_read_ieee', roots=['gdstk::oasis_read_real_by_type'], entry='h_real_read',
-      defines={'VF_TAPE_MAX': 28, 'VF_WTAPE_MAX': 28, 'VF_TYPE_LO': 6, 'VF_TYPE_HI': 7},
+      bound='loops bounded by the operand width; tape window 24 bytes read from position 0 (the integers inside are read through oasis_read_unsigned_integer\'s contract, which is position-generic)', defines={'VF_TAPE_MAX': 24, 'VF_WTAPE_MAX': 24, 'VF_POS0_ZERO': 1, 'VF_TYPE_LO': 6, 'VF_TYPE_HI': 7},
       enforce='oasis_read_real_by_type', replace=['oasis_read_unsigned_integer', 'oasis_read', 'little_endian_swap32', 'little_endian_swap64'],
       replace_extern=['fputs']),
     G('real_read_bad', roots=['gdstk::oasis_read_real_by_type'], entry='h_real_read',
-      defines={'VF_TAPE_MAX': 28, 'VF_WTAPE_MAX': 28, 'VF_TYPE_LO': 8, 'VF_TYPE_HI': 255},
+      bound='loops bounded by the operand width; tape window 24 bytes read from position 0 (the integers inside are read through oasis_read_unsigned_integer\'s contract, which is position-generic)', defines={'VF_TAPE_MAX': 24, 'VF_WTAPE_MAX': 24, 'VF_POS0_ZERO': 1, 'VF_TYPE_LO': 8, 'VF_TYPE_HI': 255},
       enforce='oasis_read_real_by_type', replace=['oasis_read_unsigned_integer', 'oasis_read', 'little_endian_swap32', 'little_endian_swap64'],
       replace_extern=['fputs']),
     G('real_write', uf_fdiv=True, extra_checks=['--conversion-check'], defines={'VF_TAPE_MAX': 28, 'VF_WTAPE_MAX': 28}, roots=['gdstk::oasis_write_real'], entry='h_real_write',
